@@ -8,6 +8,8 @@ package main
 //   stat:   hook-free, free-running goroutines, many trials (case Stat).
 // Layer (b): a real udp/client.Conn over the in-memory session with handlers that issue nested
 //   blocking requests (case ConnC), see c11conn.go.
+// Layer (c): bursts through the socket reader's hand-off into the receive queue on a real tcp/client.Conn
+//   (scripted stream) and a real udp/client.Conn (one goroutine calling Process), case Burst, see c11burst.go.
 
 import (
 	"context"
@@ -841,7 +843,7 @@ func runC11(a runArgs) error {
 	e.Preamble = "From GoCoap Require Import Reader.Model Reader.Spec."
 	e.ShardSize = 400
 	e.MaxBytes = 400000
-	e.Rule = "layer (a) stand-alone client.ReceivedMessageReader with a fake client: forced = cooperative scheduler behind the verifYield points executes a schedule (threads: producer P, loops L<i>, external TryToReplaceLoop caller X, closer C), every step's resulting scheduling point and the dispatch log are compared with the model; all schedules of the small configurations (depth-first by re-execution), random schedules of random configurations (queue sizes 0,1,2,16; handler programs of TryToReplaceLoop calls R and nested blocking requests N<r>; close). stat = hook-free free-running trials. layer (b) real udp/client.Conn over the in-memory session with handlers issuing nested Do to depth 1-3 (thorough: up to 5). Distinct = distinct (configuration, executed schedule); non-trivial = at least one replacement request in the run (handler program or external caller)."
+	e.Rule = "layer (a) stand-alone client.ReceivedMessageReader with a fake client: forced = cooperative scheduler behind the verifYield points executes a schedule (threads: producer P, loops L<i>, external TryToReplaceLoop caller X, closer C), every step's resulting scheduling point and the dispatch log are compared with the model; all schedules of the small configurations (depth-first by re-execution), random schedules of random configurations (queue sizes 0,1,2,16; handler programs of TryToReplaceLoop calls R and nested blocking requests N<r>; close). stat = hook-free free-running trials. layer (b) real udp/client.Conn over the in-memory session with handlers issuing nested Do to depth 1-3 (thorough: up to 5). layer (c) bursts of 3-200 back-to-back messages through the socket reader's hand-off into the receive queue of a real tcp/client.Conn (scripted stream; one write, writes of j frames, writes of j bytes) and of a real udp/client.Conn (one goroutine calling Process), queue sizes 0/1/16, handlers that return at once, that block on a harness channel until the reader is parked on the full queue, and that issue a nested request whose response is part of the burst. Distinct = distinct (configuration, executed schedule) resp. burst descriptor; non-trivial = at least one replacement request in the run (handler program or external caller), for a burst: more messages than queue size + 1 (some push has to wait for the consumer)."
 	rng := NewRng(a.seed)
 	nontrivial := func(c c11Cfg) bool {
 		if c.k > 0 {
@@ -882,6 +884,8 @@ func runC11(a runArgs) error {
 			}
 		case "U":
 			c11ConnOnly(e, a.only)
+		case "B":
+			c11BurstOnly(e, a.only)
 		}
 		return e.Flush(a.out)
 	}
@@ -962,5 +966,7 @@ func runC11(a runArgs) error {
 	}
 	// 4. real connection
 	c11ConnCases(e, rng, thorough)
+	// 5. bursts through the socket reader's hand-off on real tcp / udp connections
+	c11BurstCases(e, rng, thorough)
 	return e.Flush(a.out)
 }
